@@ -308,24 +308,27 @@ def replay_sequence(case, seq):
 
 
 def in_known_class(vcase) -> bool:
-    """KNOWN FINDING `believable-404-on-delete-if-exists` (KNOWN_FINDINGS.txt): EVERY faulty pass of the failing history
-    is a believable 404 — kind 404 landing on the GET of a deleteIfExists Function whose object is in the cluster at that
-    moment — and everything the oracle reports is the missing containment of such a pass.  Nothing broader: any other
-    kind or any other call anywhere in the history, the object absent, a fault that was not reached, or any other
-    complaint (not returning, running late, not recovering once the faults stop) is an ordinary violation."""
+    """KNOWN FINDING `believable-404-on-delete-if-exists` (KNOWN_FINDINGS.txt).  Every complaint of the oracle is raised
+    while it judges ONE faulty pass of the history (it is tagged with the history up to and including that pass).  The
+    input is in the class iff there is at least one complaint and EVERY complaint is a containment complaint raised for
+    a pass whose own fault is a believable 404 — kind 404 landing on the GET of a deleteIfExists Function whose object is
+    in the cluster at that moment.  The other passes of the history may carry any faults; they just must not give rise
+    to a complaint.  Anything else — a complaint about a pass with another fault, a pass that does not return or runs
+    late, the run not converging once the faults stop — keeps it an ordinary violation."""
     try:
         case, seq = vcase.get("case"), vcase.get("faults")
         if not isinstance(case, dict) or not isinstance(seq, dict) or not (seq.get("faults") or []):
             return False
-        if any(k != 404 for _, k in seq["faults"]):
-            return False
         found, sites = replay_sequence(case, seq)
         if not found or len(sites) != len(seq["faults"]):
             return False
-        for site in sites:
-            if site is None or not is_believable_site(case, site):
+        for tag, what in found:
+            j = len(tag.get("faults") or []) - 1          # the pass this complaint is about
+            if j < 0 or j >= len(sites) or sites[j] is None or not is_believable_site(case, sites[j]):
                 return False
-        return all(any(re.search(p, what) for p in KNOWN_WHATS) for _, what in found)
+            if not any(re.search(p, what) for p in KNOWN_WHATS):
+                return False
+        return True
     except Infra:
         raise
     except Exception:
@@ -502,6 +505,17 @@ def size(case):
     return sum(len(w["steps"]) for w in case["defs"])
 
 
+def ask_driver(drv, reqs):
+    """the compiled driver can vanish for a moment while somebody else's lake run relinks it: rebuild once and ask again;
+    a second failure is infrastructure trouble (exit 2), never a verdict"""
+    try:
+        return drv.ask(reqs)
+    except Infra:
+        import common
+        common.lean_build(["driver_c09"])
+        return drv.ask(reqs)
+
+
 def sweep_case(ck, drv, r, case, tier, tag, only=None, info=None):
     """the fault sweep for one workflow.  A fault sequence is {"start": k, "faults": [[i, kind], …]}: k fault-free
     passes, then one faulty pass per entry (API-call index i of that pass fails with `kind`), then fault-free passes.
@@ -554,6 +568,10 @@ def sweep_case(ck, drv, r, case, tier, tag, only=None, info=None):
             ck.count("fault:not-reached")
         for what in oracle(case, objects, obs, clean_after, limit):
             violations.append((seq, what))
+            if info is not None:    # the classifier's verdict on this complaint, from what the sweep already knows
+                info.setdefault("hints", {})[json.dumps(seq, sort_keys=True) + "|" + what] = bool(
+                    landed[0] is not None and is_believable_site(case, landed[0])
+                    and any(re.search(p, what) for p in KNOWN_WHATS))
         if not obs.get("raised") and "overall" in obs:
             for t in obs["task_tree"]:
                 ck.count(f"task:{t['state']}")
@@ -598,6 +616,21 @@ def sweep_case(ck, drv, r, case, tier, tag, only=None, info=None):
                 faulty(objects, probe["cluster"].objects, again, 404,
                        {"start": k, "faults": seq["faults"] + [[again, 404]]})
                 ck.count("believable-404-twice")
+        elif (only is None and obs is not None and not obs.get("raised") and len(seq["faults"]) == 1
+                and landed[0] is not None):
+            # an ordinary (contained) fault first, the recorded finding in the NEXT pass: always when the first fault hit
+            # a deleteIfExists Function (e.g. its DELETE failed, the object is still there), else for the sampled ones
+            targets = [key[3] for key in sorted(objects, key=str)
+                       if (fn_of_resource(case, key[3]) or {"rf": {"mode": None}})["rf"]["mode"] == "delete"]
+            mine = landed[0]["name"] in targets
+            if targets and (mine or n in second):
+                name = landed[0]["name"] if mine else targets[0]
+                probe = rec.clean_pass(objects)
+                idx = next((e["i"] for e in probe["cluster"].log if e["method"] == "GET" and e["name"] == name), None)
+                if idx is not None:
+                    faulty(objects, probe["cluster"].objects, idx, 404,
+                           {"start": k, "faults": seq["faults"] + [[idx, 404]]})
+                    ck.count("contained-fault-then-believable-404")
         if n in second and obs is not None and not obs.get("raised"):
             probe = rec.clean_pass(objects)
             if probe["log"]:
@@ -609,7 +642,7 @@ def sweep_case(ck, drv, r, case, tier, tag, only=None, info=None):
     for k, (objects, b) in enumerate(traj):
         reqs.append(request(case, objects, b))
         pending.append(({"start": k, "faults": []}, b))
-    for (seq, obs), ans in zip(pending, drv.ask(reqs) if drv is not None else []):
+    for (seq, obs), ans in zip(pending, ask_driver(drv, reqs) if drv is not None else []):
         diff = model_compare(case, obs, ans)
         ck.count("traces_validated_against_impl")
         if diff:
@@ -855,33 +888,42 @@ def lookup_scenarios(ck, only=None):
     return out
 
 
-def reduce_history(case, seq, whats):
-    """minimise a history whose LAST faulty pass is a believable 404 and whose complaints (about that pass) are all
-    containment complaints: the earlier faulty passes only set the scene, so look for a single believable 404 on the same
-    GET, a few fault-free passes into the never-faulted run, that is in the known class.  None if there is none — the
-    history then stays as it is (and, being mixed, an ordinary violation)."""
+def reduce_history(case, seq):
+    """minimise a history of the known class: keep only what is needed to reach the complaint.  First a single
+    believable 404 on the same GET, a few fault-free passes into the never-faulted run; failing that, drop the faulty
+    passes that no complaint is about, one at a time, as long as the input stays in the class.  Returns a history in
+    the class (possibly the one given)."""
     try:
-        if len(seq.get("faults") or []) < 2 or not all(any(re.search(p, w) for p in KNOWN_WHATS) for w in whats):
-            return None
-        _, sites = replay_sequence(case, seq)
-        if len(sites) != len(seq["faults"]) or sites[-1] is None or not is_believable_site(case, sites[-1]):
-            return None
-        prep = wf_run.prepare_case(case)
-        traj = Recovery(prep, bound=2 * size(case) + 8).trajectory(prep.objects)
-        for st in range(seq.get("start", 0), min(len(traj), seq.get("start", 0) + len(seq["faults"]) + 1)):
-            idx = next((e["i"] for e in traj[st][1]["cluster"].log
-                        if e["method"] == "GET" and e["name"] == sites[-1]["name"]), None)
-            cand = {"start": st, "faults": [[idx, 404]]}
-            if idx is not None and in_known_class({"case": case, "faults": cand}):
-                return cand
+        if len(seq.get("faults") or []) < 2:
+            return seq
+        found, sites = replay_sequence(case, seq)
+        about = sorted({len(tag["faults"]) - 1 for tag, _ in found})
+        if len(about) == 1 and sites[about[0]] is not None:
+            prep = wf_run.prepare_case(case)
+            traj = Recovery(prep, bound=2 * size(case) + 8).trajectory(prep.objects)
+            for st in range(seq.get("start", 0), min(len(traj), seq.get("start", 0) + len(seq["faults"]) + 1)):
+                idx = next((e["i"] for e in traj[st][1]["cluster"].log
+                            if e["method"] == "GET" and e["name"] == sites[about[0]]["name"]), None)
+                cand = {"start": st, "faults": [[idx, 404]]}
+                if idx is not None and in_known_class({"case": case, "faults": cand}):
+                    return cand
+        cur = seq
+        changed = True
+        while changed and len(cur["faults"]) > 1:
+            changed = False
+            for j in range(len(cur["faults"])):
+                cand = {"start": cur.get("start", 0), "faults": cur["faults"][:j] + cur["faults"][j + 1:]}
+                if in_known_class({"case": case, "faults": cand}):
+                    cur, changed = cand, True
+                    break
+        return cur
     except Infra:
         raise
     except Exception:
-        pass
-    return None
+        return seq
 
 
-def report(ck, case, found, corpus=None):
+def report(ck, case, found, corpus=None, hints=None):
     """record what a workflow's sweep found: one record per failing fault sequence, shrunk first (the oracle alone
     decides while shrinking).  A sequence of the KNOWN class is shrunk INSIDE the class and goes through the
     classifier; any other one is shrunk OUTSIDE it (so that minimising can never turn a violation into the finding)."""
@@ -896,15 +938,22 @@ def report(ck, case, found, corpus=None):
     for seq, what in seqs:
         if len(ck.violations) >= 3:
             break
+        key = json.dumps(seq, sort_keys=True)
+        if known_done and corpus is None and hints is not None and all(
+                hints.get(key + "|" + w) for w in whats[key]):
+            # a further occurrence of the finding already recorded in this run (same verdict the classifier reaches,
+            # taken from what the sweep saw; the first occurrence went through the classifier itself)
+            ck.count("known-finding-occurrences")
+            continue
         known = in_known_class({"case": case, "faults": seq})
-        if not known and corpus is None:
-            shorter = reduce_history(case, seq, whats[json.dumps(seq, sort_keys=True)])
-            if shorter is not None:
-                seq, known = shorter, True
-                ck.count("histories-minimised-into-known-class")
         if known and known_done and corpus is None:
             ck.count("known-finding-occurrences")
             continue
+        if known and corpus is None and len(seq["faults"]) > 1:
+            shorter = reduce_history(case, seq)
+            if shorter != seq:
+                seq = shorter
+                ck.count("known-histories-minimised")
 
         def fails(c):
             try:
@@ -978,16 +1027,16 @@ def run(tier: str) -> int:
                     break
             else:
                 continue
-            found = sweep_case(ck, drv, r, case, tier, "random")
+            info = {"sites": [], "hints": {}}
+            found = sweep_case(ck, drv, r, case, tier, "random", info=info)
             if found:
-                report(ck, case, found)
+                report(ck, case, found, hints=info["hints"])
                 if len(ck.violations) >= 3:
                     break
     except Infra as e:
-        if "driver" not in str(e):
-            raise
+        if "driver" not in str(e) or ck.build_ok:
+            raise               # the build succeeded, so a missing / crashing driver is infrastructure trouble: exit 2
         ck.notes.append(f"model driver unavailable: {e}")
-        ck.build_ok = False
     d = ck.cov["distribution"]
     ck.cov["traces_validated_against_impl"] = d.get("traces_validated_against_impl", 0)
     ck.cov["fault_sweep"] = {
